@@ -29,14 +29,31 @@ func TestZZVerifScenario(t *testing.T) {
 		}
 	}
 	for _, s := range verifProtocolScenarios {
-		if !sel(s.Obligation) {
+		// a scenario named "prefix*" stands for every obligation with that prefix
+		var names []string
+		if strings.HasSuffix(s.Obligation, "*") {
+			pre := strings.TrimSuffix(s.Obligation, "*")
+			for o := range want {
+				if strings.HasPrefix(o, pre) {
+					names = append(names, o)
+				}
+			}
+			if len(want) == 0 {
+				names = []string{s.Obligation}
+			}
+		} else if sel(s.Obligation) {
+			names = []string{s.Obligation}
+		}
+		if len(names) == 0 {
 			continue
 		}
 		ok, d := s.Run()
-		if ok {
-			fmt.Printf("REPLAY-MISMATCH %s — %s\n", s.Obligation, d)
-		} else {
-			fmt.Printf("REPLAY-OK %s — %s\n", s.Obligation, d)
+		for _, n := range names {
+			if ok {
+				fmt.Printf("REPLAY-MISMATCH %s — %s\n", n, d)
+			} else {
+				fmt.Printf("REPLAY-OK %s — %s\n", n, d)
+			}
 		}
 	}
 }
